@@ -82,6 +82,49 @@ def nj(ctx, reason):
     ctx.hist("not_judged", reason)
 
 
+# ------------------------------------------------------------------------------------------------ positional call forms
+# Every public entry point driven by this check is, in a share of the cases, also called FULLY POSITIONALLY, with non-default values,
+# in the parameter order of the PRISTINE signatures.  That order is hard-coded here and at the call sites (never introspected at run
+# time: a changed tree must not redefine the expected order):
+#   ssi.build_hank(Y, Yref, br, method, calc_unc, nb)
+#   ssi.SSI(H, br, ordmax, step)
+#   ssi.SSI_fast(H, br, ordmax, step, calc_unc, T, nb)
+#   ssi.SSI_poles(Obs, AA, CC, ordmax, dt, step, calc_unc, Q1, Q2, Q3, Q4)
+#   ssi.ac2mp(A, C, dt, calc_unc)
+#   ssi.SSI_mpe(freq_ref, Fn_pol, Xi_pol, Phi_pol, order, Lab, rtol, Fn_cov, Xi_cov, Phi_cov)
+#   SSIdat / SSIcov(run_params, name)        SSIdat / SSIcov .mpe(sel_freq, order, rtol)
+#   SingleSetup(data, fs)                    SingleSetup.mpe(name, sel_freq, order, rtol)
+# Required: (a) the same answer as the call with keywords (bit-equal: same function, same values), (b) the oracle of the property on it
+# (applied to the positional result itself, or to the keyword result it is bit-equal to).
+def same_nested(a, b):
+    if a is None or b is None:
+        return a is None and b is None
+    if isinstance(a, (list, tuple)) or isinstance(b, (list, tuple)):
+        return (isinstance(a, (list, tuple)) and isinstance(b, (list, tuple)) and len(a) == len(b)
+                and all(same_nested(x, y) for x, y in zip(a, b)))
+    return same_arrays(a, b)
+
+
+def pos_call(ctx, entry, form, call, case):
+    """Run the positional form of a call whose keyword form has just succeeded on the same values."""
+    ctx.hist("positional-call", entry)
+    try:
+        return True, call()
+    except Exception as e:  # noqa: BLE001 - whatever it raises, the documented positional call is lost
+        ctx.fail("oracle", "%s raises %s (%s) although the same call with keywords succeeds: the positional arguments no longer reach "
+                 "the documented parameters" % (form, type(e).__name__, str(e)[:100]), dict(case, positional=form), key="C01:%s:positional-call" % entry)
+        return False, None
+
+
+def pos_same(ctx, entry, form, kw_out, pos_out, case, what="answer"):
+    if same_nested(kw_out, pos_out):
+        return True
+    ctx.fail("oracle", "%s gives a different %s from the same call with keywords (documented parameter order of %s: the positional values "
+             "are bound to other parameters, or fall back to defaults)" % (form, what, entry), dict(case, positional=form),
+             key="C01:%s:positional-call" % entry)
+    return False
+
+
 # ------------------------------------------------------------------------------------------------ generators
 def unimodular(rng, n, shears):
     """Integer matrix P with integer inverse (product of elementary shears and one permutation)."""
@@ -270,6 +313,13 @@ def stage_realise_case(ctx, case, exprs, meta):
             ctx.fail("oracle", "%s raised LinAlgError on a rank-%d Hankel matrix with ordmax=%d" % (name, n, ordmax), small, key="C01:%s:raises" % name)
             continue
         routines.append((name, AA, CC))
+        if step > 1:
+            # the same call fully positionally (pristine order H, br, ordmax, step): bit-equal lists, which the oracle below then judges
+            form = "%s(H, %d, %d, %d) [H, br, ordmax, step]" % (name, br, ordmax, step)
+            okp, outp = pos_call(ctx, name, form, (lambda: ssi.SSI_fast(H, br, ordmax, step)[1:3]) if name == "SSI_fast"
+                                 else (lambda: ssi.SSI(H, br, ordmax, step)[0:2]), small)
+            if okp:
+                pos_same(ctx, name, form, (AA, CC), outp, small, what="list of realisations")
     # one (A, C) per requested order 0, step, 2 step, ... <= ordmax; entry k IS the realisation of model order k*step
     nent = ordmax // step + 1
     for name, AA, CC in routines:
@@ -493,7 +543,7 @@ def stage_ac2mp(ctx, cases):
         spans.append((len(exprs), len(ex)))
         exprs += ex
     res = ctx.coq_eval(HEADER, exprs, shard=40)
-    for case, (a, k) in zip(cases, spans):
+    for ci, (case, (a, k)) in enumerate(zip(cases, spans)):
         A, C, dt = np.array(case["A"]), np.array(case["C"]), case["dt"]
         pairs = case_pairs(case)
         modes = model_modes_parse(res[a:a + k], pairs, dt)
@@ -509,6 +559,17 @@ def stage_ac2mp(ctx, cases):
         if not (same_arrays(A, A0) and same_arrays(C, C0)):
             ctx.fail("oracle", "ac2mp modified the matrices it was given", case, key="C01:ac2mp:input-modified")
             continue
+        if ci % 3 == 0:
+            # fully positional, pristine order (A, C, dt, calc_unc) with the non-default calc_unc=True: same seven outputs as with the keyword;
+            # fn, xi, shapes and poles bit-equal to the plain call judged below; the extra outputs are there and are the eigenvalues of A
+            form = "ac2mp(A, C, %g, True) [A, C, dt, calc_unc]" % dt
+            kwo = ssi.ac2mp(A, C, dt, calc_unc=True)
+            okp, pso = pos_call(ctx, "ac2mp", form, lambda: ssi.ac2mp(A, C, dt, True), case)
+            if okp and pos_same(ctx, "ac2mp", form, tuple(kwo), tuple(pso), case):
+                if not (same_nested(tuple(pso[:4]), (fn, xi, phi, lam_c)) and pso[4] is not None and pso[5] is not None and pso[6] is not None
+                        and np.asarray(pso[4]).shape == (len(pairs),) and all(np.min(np.abs(np.asarray(pso[4]) - complex(z))) <= 1e-8 for z, _ in pairs)):
+                    ctx.fail("oracle", "%s: fn, xi, shapes, poles must be those of ac2mp(A, C, dt) and the discrete eigenvalues / eigenvectors must be returned"
+                             % form, dict(case, positional=form), key="C01:ac2mp:positional-call")
         if case["kind"] == "tie":
             # exact tie by construction (|C[0]psi| = |C[l-1]psi|): np.argmax takes the first; the model's margin is 0, so decide here
             # (inputs are short dyadics, so the squared moduli below are exact in floating point); any OTHER exact tie is decided by
@@ -568,6 +629,16 @@ def stage_poles(ctx, cases):
         if not (len(AA) == len(AA0) and len(CC) == len(CC0) and all(same_arrays(x, y) for x, y in zip(AA + CC, AA0 + CC0))):
             ctx.fail("oracle", "SSI_poles modified the lists of matrices it was given", small, key="C01:SSI_poles:input-modified")
             continue
+        if ci % 2 == 0:
+            # both call forms of the table assembly (the call above is positional in its five required parameters): all keywords against
+            # positional up to calc_unc in the pristine order; bit-equal to each other and to the tables judged below.  (step > 1 cannot
+            # be used here: on the unchanged tree SSI_poles indexes columns by the order itself; the full eleven-parameter positional
+            # call with calc_unc=True is made in the end-to-end stage.)
+            form = "SSI_poles(None, AA, CC, %d, %g, 1, False) [Obs, AA, CC, ordmax, dt, step, calc_unc]" % (ordmax, dt)
+            kwo = ssi.SSI_poles(Obs=None, AA=AA, CC=CC, ordmax=ordmax, dt=dt, step=1, calc_unc=False)
+            okp, pso = pos_call(ctx, "SSI_poles", form, lambda: ssi.SSI_poles(None, AA, CC, ordmax, dt, 1, False), small)
+            if okp and pos_same(ctx, "SSI_poles", form, tuple(kwo), tuple(pso), small, what="set of pole tables"):
+                pos_same(ctx, "SSI_poles", form, tuple(out), tuple(pso), small, what="set of pole tables (than SSI_poles(None, AA, CC, ordmax, dt))")
         if Fn.shape != (ordmax, ordmax + 1) or Xi.shape != Fn.shape or Lam.shape != Fn.shape or Phi.shape != (ordmax, ordmax + 1, l):
             ctx.fail("oracle", "SSI_poles: table shapes %s %s %s %s for ordmax=%d, %d channels" % (Fn.shape, Xi.shape, Phi.shape, Lam.shape, ordmax, l),
                      small, key="C01:SSI_poles:shape")
@@ -606,6 +677,168 @@ def free_decay(fn, xi, phi, amp, fs, N):
     for j in range(len(lam)):
         Y += 2 * np.real(np.outer(np.exp(lam[j] * t) * amp[j], phi[:, j]))
     return Y, lam
+
+
+def realisation_worst(An, Cn, lam, fs, fn, xi, phi):
+    """Largest error (relative fn, absolute xi, 1-MAC) of the poles and shapes of a realisation (A_n, C_n) against the true system."""
+    w, v = np.linalg.eig(An)
+    shp = Cn @ v
+    worst, what = 0.0, ""
+    for j in range(len(fn)):
+        i = int(np.argmin(np.abs(w - np.exp(lam[j] / fs))))
+        lc = np.log(w[i]) * fs
+        f, x = abs(lc) / (2 * np.pi), -lc.real / abs(lc)
+        e = max(abs(f - fn[j]) / fn[j], abs(x - xi[j]), 1 - mac(shp[:, i], phi[:, j]))
+        if not e <= worst:
+            worst, what = e, "mode %d: identified fn=%.9g xi=%.6g, true fn=%.9g xi=%.6g, 1-MAC %.3g" % (j, f, x, fn[j], xi[j], 1 - mac(shp[:, i], phi[:, j]))
+    return worst, what
+
+
+def e2e_positional_unc_chain(ctx, cs, Y, lam, fn, xi, phi, fs, br, ref, ordmax, nb, cond, kw_hank, kw_fast, kw_poles):
+    """The function-level chain with uncertainties, every call fully positional in the pristine parameter order and with non-default
+    values (calc_unc=True, nb != 100, T and Q1..Q4 given; step=2 for SSI_fast): bit-equal to the keyword chain, true poles in it."""
+    m = len(fn)
+    tol = tol_e2e(cond)
+    f1 = "build_hank(Y, Yref, %d, 'cov_mm', True, %d) [Y, Yref, br, method, calc_unc, nb]" % (br, nb)
+    ok, hp = pos_call(ctx, "build_hank", f1, lambda: ssi.build_hank(Y.T, Y.T[ref, :], br, "cov_mm", True, nb), cs)
+    if not (ok and pos_same(ctx, "build_hank", f1, tuple(kw_hank), tuple(hp), cs, what="Hankel matrix / covariance factor")):
+        return
+    f2 = "SSI_fast(H, %d, %d, 1, True, T, %d) [H, br, ordmax, step, calc_unc, T, nb]" % (br, ordmax, nb)
+    ok, op = pos_call(ctx, "SSI_fast", f2, lambda: ssi.SSI_fast(hp[0], br, ordmax, 1, True, hp[1], nb), cs)
+    if not (ok and pos_same(ctx, "SSI_fast", f2, tuple(kw_fast), tuple(op), cs, what="set of realisations / sensitivity factors")):
+        return
+    f3 = "SSI_poles(Obs, AA, CC, %d, %.9g, 1, True, Q1, Q2, Q3, Q4) [Obs, AA, CC, ordmax, dt, step, calc_unc, Q1, Q2, Q3, Q4]" % (ordmax, 1.0 / fs)
+    ok, pp = pos_call(ctx, "SSI_poles", f3, lambda: ssi.SSI_poles(op[0], op[1], op[2], ordmax, 1.0 / fs, 1, True, op[3], op[4], op[5], op[6]), cs)
+    if ok and pos_same(ctx, "SSI_poles", f3, tuple(kw_poles), tuple(pp), cs, what="set of pole / variance tables"):
+        # oracle on the positional result: column 2m holds, for every true mode, exactly two poles with its fn and xi; finite variances
+        Fc, Xc, Vc = np.asarray(pp[0])[:, 2 * m], np.asarray(pp[1])[:, 2 * m], np.asarray(pp[4])[:, 2 * m]
+        for j in range(m):
+            idx = [i for i in range(len(Fc)) if np.isfinite(Fc[i]) and abs(Fc[i] - fn[j]) <= tol * fn[j]]
+            if not (len(idx) == 2 and all(abs(Xc[i] - xi[j]) <= tol and np.isfinite(Vc[i]) and Vc[i] < 0.2 for i in idx)):
+                ctx.fail("oracle", "%s: order %d of the table does not hold the conjugate pair of mode %d (fn=%.9g, xi=%.6g) with a finite variance below "
+                         "the default limit" % (f3, 2 * m, j, fn[j], xi[j]), dict(cs, positional=f3), key="C01:SSI_poles:positional-call")
+                break
+    # SSI_fast once more with the non-default step=2 (entry k = order 2k; entry m is the order-2m realisation of the true system)
+    f4 = "SSI_fast(H, %d, %d, 2, True, T, %d) [H, br, ordmax, step, calc_unc, T, nb]" % (br, ordmax, nb)
+    try:
+        kw4 = ssi.SSI_fast(kw_hank[0], br, ordmax, step=2, calc_unc=True, T=kw_hank[1], nb=nb)
+    except np.linalg.LinAlgError:
+        nj(ctx, "e2e-unc: LinAlgError in the sensitivity of a rounding-level singular value")
+        return
+    ok, p4 = pos_call(ctx, "SSI_fast", f4, lambda: ssi.SSI_fast(kw_hank[0], br, ordmax, 2, True, kw_hank[1], nb), cs)
+    if ok and pos_same(ctx, "SSI_fast", f4, tuple(kw4), tuple(p4), cs, what="set of realisations / sensitivity factors"):
+        AA, CC = p4[1], p4[2]
+        if not (len(AA) == ordmax // 2 + 1 and len(CC) == len(AA) and np.asarray(AA[m]).shape == (2 * m, 2 * m) and all(q_ is not None for q_ in p4[3:7])):
+            ctx.fail("oracle", "%s: one realisation per order 0, 2, .. <= %d and the four sensitivity factors expected" % (f4, ordmax),
+                     dict(cs, positional=f4), key="C01:SSI_fast:positional-call")
+            return
+        worst, what = realisation_worst(np.asarray(AA[m]), np.asarray(CC[m]), lam, fs, fn, xi, phi)
+        if not worst <= tol:
+            ctx.fail("oracle", "%s on the Hankel matrix of a noise-free decay with %d modes: entry %d (order %d): %s" % (f4, m, m, 2 * m, what),
+                     dict(cs, positional=f4), key="C01:SSI_fast:positional-call")
+
+
+def e2e_positional_extraction(ctx, cs, cls, ss, alg, data, Y, fs, kw, method, fn, xi, phi, col, tol, gap):
+    """Extraction and set-up entry points fully positionally, non-default values: SingleSetup.mpe(name, sel_freq, order, rtol),
+    <algorithm>.mpe(sel_freq, order, rtol), ssi.SSI_mpe(freq_ref, Fn_pol, Xi_pol, Phi_pol, order, Lab, rtol, Fn_cov, Xi_cov, Phi_cov),
+    SingleSetup(data, fs), <algorithm>(run_params, name).  Requests lie 7.5 % off the true frequencies where the spacing of the modes
+    allows (beyond the default rtol of 5 %, inside the rtol=0.1 passed): a fall-back to the default rtol loses those modes, an exchange
+    of order and rtol cannot run."""
+    from pyoma2.setup import SingleSetup
+
+    m, l = len(fn), phi.shape[0]
+    res = alg.result
+    cname = cls.__name__
+    prtol = 0.1
+    pj = np.minimum(0.075, 0.4 * gap / fn)
+    vals = [float(f * (1 + (1 if (j + m) % 2 else -1) * p_)) for j, (f, p_) in enumerate(zip(fn, pj))]
+    ctx.hist("positional-call.mpe request beyond default rtol", bool(np.any(pj > 0.055)))
+
+    def snap():
+        return (np.array(res.Fn, copy=True), np.array(res.Xi, copy=True), np.array(res.Phi, copy=True), res.order_out)
+
+    def judge(entry, form, Fn, Xi, Phi):
+        Fn, Xi, Phi = np.asarray(Fn), np.asarray(Xi), np.asarray(Phi)
+        if Fn.shape != (m,) or Xi.shape != (m,) or Phi.shape != (l, m):
+            ctx.fail("oracle", "%s: %s returned Fn%s Xi%s Phi%s for %d requested modes inside rtol" % (method, form, Fn.shape, Xi.shape, Phi.shape, m),
+                     dict(cs, positional=form), key="C01:%s:positional-call" % entry)
+            return False
+        efv = np.abs(Fn - fn) / fn
+        exv = np.abs(Xi - xi)
+        emv = np.array([1 - max(mac(Phi[:, j], phi[:, j]), mac(Phi[:, j], np.conj(phi[:, j]))) for j in range(m)])
+        if not (efv.max() <= tol and exv.max() <= tol and emv.max() <= tol):
+            j = int(np.argmax(np.maximum(np.maximum(efv, exv), emv)))
+            ctx.fail("oracle", "%s: %s: request %.9g: expected the identified pole fn=%.9g (xi=%.6g), got fn=%.9g xi=%.6g, 1-MAC %.3g"
+                     % (method, form, vals[j], fn[j], xi[j], Fn[j], Xi[j], emv[j]), dict(cs, positional=form), key="C01:%s:positional-call" % entry)
+            return False
+        return True
+
+    ss.mpe("a", sel_freq=list(vals), order=col, rtol=prtol)
+    kwo = snap()
+    shown = [round(v, 6) for v in vals]
+    # ---- setup level: mpe(name, sel_freq, order, rtol)
+    form = "SingleSetup.mpe('a', %s, %d, %g) [name, sel_freq, order, rtol]" % (shown, col, prtol)
+    ok, _ = pos_call(ctx, "SingleSetup.mpe", form, lambda: ss.mpe("a", list(vals), col, prtol), cs)
+    if ok:
+        pso = snap()
+        if pos_same(ctx, "SingleSetup.mpe", form, kwo, pso, cs, what="Fn / Xi / Phi / order_out"):
+            judge("SingleSetup.mpe", form, *pso[:3])
+    # ---- algorithm level: mpe(sel_freq, order, rtol)
+    form = "%s.mpe(%s, %d, %g) [sel_freq, order, rtol]" % (cname, shown, col, prtol)
+    ok, _ = pos_call(ctx, "%s.mpe" % cname, form, lambda: alg.mpe(list(vals), col, prtol), cs)
+    if ok:
+        pso = snap()
+        if pos_same(ctx, "%s.mpe" % cname, form, kwo, pso, cs, what="Fn / Xi / Phi / order_out"):
+            judge("%s.mpe" % cname, form, *pso[:3])
+        if not (alg.run_params.order_in == col and alg.run_params.rtol == prtol and list(alg.run_params.sel_freq) == vals):
+            ctx.fail("oracle", "%s: the run parameters record sel_freq=%s order_in=%s rtol=%s" % (form, alg.run_params.sel_freq, alg.run_params.order_in,
+                     alg.run_params.rtol), dict(cs, positional=form), key="C01:%s.mpe:positional-call" % cname)
+    # ---- function level: SSI_mpe, all ten parameters; variance tables: those of the run, or stand-ins derived from the pole tables
+    Fp, Xp, Pp, Lab = res.Fn_poles, res.Xi_poles, res.Phi_poles, res.Lab
+    if res.Fn_poles_cov is not None:
+        c1, c2, c3 = res.Fn_poles_cov, res.Xi_poles_cov, res.Phi_poles_cov
+    else:
+        c1, c2, c3 = np.abs(Fp) * 0.001, np.abs(Xp) * 0.01, np.abs(Pp) * 0.1
+    form = "SSI_mpe(%s, Fn_pol, Xi_pol, Phi_pol, %d, Lab, %g, Fn_cov, Xi_cov, Phi_cov) [freq_ref, Fn_pol, Xi_pol, Phi_pol, order, Lab, rtol, Fn_cov, Xi_cov, Phi_cov]" % (shown, col, prtol)
+    kwf = ssi.SSI_mpe(freq_ref=list(vals), Fn_pol=Fp, Xi_pol=Xp, Phi_pol=Pp, order=col, Lab=Lab, rtol=prtol, Fn_cov=c1, Xi_cov=c2, Phi_cov=c3)
+    ok, psf = pos_call(ctx, "SSI_mpe", form, lambda: ssi.SSI_mpe(list(vals), Fp, Xp, Pp, col, Lab, prtol, c1, c2, c3), cs)
+    if ok and pos_same(ctx, "SSI_mpe", form, tuple(kwf), tuple(psf), cs) and judge("SSI_mpe", form, *psf[:3]):
+        rows = [int(np.nanargmin(np.abs(np.asarray(Fp)[:, col] - v))) for v in vals]
+        want = (np.asarray(c1)[rows, col], np.asarray(c2)[rows, col], np.asarray(c3)[rows, col, :].T)
+        if not (psf[3] == col and all(x is not None and np.array_equal(np.asarray(x), w_, equal_nan=True) for x, w_ in zip(psf[4:7], want))):
+            ctx.fail("oracle", "%s: order_out must be %d and the variances those of the selected poles (Fn_cov, Xi_cov, Phi_cov entries of rows %s, column %d)"
+                     % (form, col, rows, col), dict(cs, positional=form), key="C01:SSI_mpe:positional-call")
+    # order='find_min' makes Lab count (answer compared between the two call forms only: the order it settles on need not be 2m)
+    form = "SSI_mpe(fn, Fn_pol, Xi_pol, Phi_pol, 'find_min', Lab, 0.02, Fn_cov, Xi_cov, Phi_cov) [freq_ref, Fn_pol, Xi_pol, Phi_pol, order, Lab, rtol, Fn_cov, Xi_cov, Phi_cov]"
+    sel = [float(f) for f in fn]
+    kwf = ssi.SSI_mpe(freq_ref=list(sel), Fn_pol=Fp, Xi_pol=Xp, Phi_pol=Pp, order="find_min", Lab=Lab, rtol=0.02, Fn_cov=c1, Xi_cov=c2, Phi_cov=c3)
+    ctx.hist("positional-call.SSI_mpe find_min settles on an order", kwf[3] is not None)
+    ok, psf = pos_call(ctx, "SSI_mpe", form, lambda: ssi.SSI_mpe(list(sel), Fp, Xp, Pp, "find_min", Lab, 0.02, c1, c2, c3), cs)
+    if ok:
+        pos_same(ctx, "SSI_mpe", form, tuple(kwf), tuple(psf), cs)
+    # ---- SingleSetup(data, fs) and <algorithm>(run_params, name), in one case of eight: same tables as the keyword-built objects
+    if (cs["N"] + cs["br"]) % 8 == 0:
+        form = "SingleSetup(data, %.9g) [data, fs]; %s(run_params, 'p') [run_params, name]" % (fs, cname)
+        rp = cls.RunParamCls(**(dict(kw, method=method) if cname == "SSIcov" else kw))
+
+        def build_and_run():
+            sp = SingleSetup(data, fs)
+            ap = cls(rp, "p")
+            sp.add_algorithms(ap)
+            sp.run_by_name("p")
+            return sp, ap
+        ok, out = pos_call(ctx, cname, form, build_and_run, cs)
+        if ok:
+            sp, ap = out
+            if not (sp.fs == ss.fs and sp.dt == ss.dt and same_arrays(sp.data, ss.data) and same_arrays(data, Y)):
+                ctx.fail("oracle", "%s: the setup holds other data / sampling rate than SingleSetup(data, fs=fs)" % form, dict(cs, positional=form),
+                         key="C01:SingleSetup:positional-call")
+            r2 = ap.result
+            if ap.name != "p" or r2 is None:
+                ctx.fail("oracle", "%s: the algorithm is registered as %r" % (form, ap.name), dict(cs, positional=form), key="C01:%s:positional-call" % cname)
+            else:
+                pos_same(ctx, cname, form, (res.Fn_poles, res.Xi_poles, res.Phi_poles, res.Lambds, res.H, res.Lab),
+                         (r2.Fn_poles, r2.Xi_poles, r2.Phi_poles, r2.Lambds, r2.H, r2.Lab), cs, what="set of pole tables")
 
 
 def e2e_case(ctx, case):
@@ -697,6 +930,8 @@ def e2e_case(ctx, case):
                 ctx.fail("oracle", "SSI_poles(calc_unc=True), ordmax=%d: frequency variances of the %d true poles (fn %s) at order %d on noise-free data are %s "
                          "(NaN or at/above the default limit cov_max=0.2; ~1e-25 on the unchanged code): the default hard criterion then removes true poles"
                          % (ordmax, 2 * m, np.round(fpol, 4), 2 * m, fcov), cs, key=key + ":variance")
+            else:
+                e2e_positional_unc_chain(ctx, cs, Y, lam, fn, xi, phi, fs, br, ref, ordmax, unc["nb"], cond, (Hh, Tt), o_, p_)
         tol = tol_e2e(cond)
         ctx.count(dict(kind_="e2e", **cs), nontrivial=True)
         ctx.sample(dict(kind="e2e", method=method, m=m, l=l, ref=ref, br=br, N=N, fs=fs, fn=case["fn"], xi=case["xi"]))
@@ -815,6 +1050,8 @@ def e2e_case(ctx, case):
                     break
             if failed:
                 continue
+            # ---- the extraction / set-up entry points called fully positionally
+            e2e_positional_extraction(ctx, cs, cls, ss, alg, data, Y, fs, kw, method, fn, xi, phi, col, tol, gap)
             # ---- general clause: a second run of the same algorithm object gives identical results, and so does a second extraction
             first = [np.array(x, copy=True) for x in (res.Fn_poles, res.Xi_poles, res.Phi_poles, res.Lambds, res.H)]
             firstAC = [np.array(x, copy=True) for x in list(res.A) + list(res.C)]
@@ -929,6 +1166,13 @@ def step_data_case(ctx, case):
                      key="C01:%s:shape" % name)
             continue
         got[name] = (AA, CC)
+        if step > 1:
+            # the same call fully positionally (pristine order H, br, ordmax, step): bit-equal lists, judged by the oracle just below
+            form = "%s(H, %d, %d, %d) [H, br, ordmax, step]" % (name, br, ordmax, step)
+            okp, outp = pos_call(ctx, name, form, (lambda: ssi.SSI_fast(H, br, ordmax, step)[1:3]) if name == "SSI_fast"
+                                 else (lambda: ssi.SSI(H, br, ordmax, step)[0:2]), cs)
+            if okp:
+                pos_same(ctx, name, form, (AA, CC), outp, cs, what="list of realisations")
         if (2 * m) % step == 0 and 2 * m <= ordmax:
             An, Cn = np.asarray(AA[2 * m // step]), np.asarray(CC[2 * m // step])
             w, v = np.linalg.eig(An)
